@@ -441,7 +441,11 @@ func TestVerif_C03(t *testing.T) {
 				if r.chance(5) {
 					d = 9 // no such block
 				}
-				code, err := cl.cmd(fmt.Sprintf("RCPT TO:<u1@r%d.example>", d))
+				rcptAddr := fmt.Sprintf("u1@r%d.example", d)
+				if r.chance(30) {
+					rcptAddr = fmt.Sprintf("u1@R%d.EXAMPLE", d) // the endpoint normalizes the domain
+				}
+				code, err := cl.cmd("RCPT TO:<" + rcptAddr + ">")
 				if err != nil {
 					t.Fatalf("case %d: RCPT: %v", ci, err)
 				}
